@@ -75,6 +75,8 @@ pub(crate) mod timing;
 pub(crate) mod validation;
 pub(crate) mod value_flags;
 pub(crate) mod verification;
+#[cfg(feature = "verif_hooks")]
+pub mod verif_hooks;
 pub(crate) mod version_script;
 
 use crate::elf::Elf;
